@@ -156,6 +156,7 @@ type Gen struct {
 	specRec  map[string]bool
 	specSrc  map[string]*types.Func
 	frames   []*Frame
+	lemmaKey string
 }
 
 type InputVar struct {
@@ -245,6 +246,9 @@ func (g *Gen) oblige(st *State, kind, name string, goal string, cl *Clause, prop
 }
 
 func (g *Gen) fnName() string {
+	if g.fn == nil {
+		return g.lemmaKey
+	}
 	return funcKey(g.fn)
 }
 
@@ -894,10 +898,15 @@ func (g *Gen) backEdge(fr *Frame, st *State, li *loopInfo) {
 		return
 	}
 	name := fmt.Sprintf("%s/loop %d", funcKey(fr.fn), li.ordinal)
+	g.callSeq["back:"+name]++
+	sfx := ""
+	if n := g.callSeq["back:"+name]; n > 1 {
+		sfx = fmt.Sprintf("#%d", n)
+	}
 	for _, inv := range lc.Invs {
 		env := g.envFor(fr, st)
 		goal := env.evalBool(inv.Expr)
-		g.oblige(st, "inv-preserved", name+"/preserved/"+inv.Label, goal, inv, nil)
+		g.oblige(st, "inv-preserved", name+"/preserved"+sfx+"/"+inv.Label, goal, inv, nil)
 	}
 }
 
@@ -1516,6 +1525,11 @@ func (g *Gen) next(fr *Frame, st *State, x *ssa.Next) {
 		implies(not(ascii), g.cmp(token.GEQ, r, g.intLit(big.NewInt(0x80), runeT), runeT)),
 		g.wf(r, runeT),
 	)
+	// bytes skipped inside a multi-byte rune are never ASCII
+	for d := int64(1); d <= 3; d++ {
+		pd := g.arith(token.ADD, pos, g.idxLit(d), intT)
+		facts = and(facts, implies(g.cmp(token.LSS, pd, np, intT), g.cmp(token.GEQ, sx("at", s, pd), g.intLit(big.NewInt(0x80), byteT), byteT)))
+	}
 	g.note("range over string: UTF-8 decoding is axiomatised (ASCII bytes decode to themselves and advance by one; other runes are >= 0x80 and advance 1..4 bytes)")
 	g.assume(st, implies(okT, facts))
 	st.cells[rng] = Val{T: ite(okT, np, pos)}
